@@ -10,6 +10,7 @@
   have no theorem yet; ResourcePeriodicallyInterrupted is not modelled (see DESIGN.md §6, §10).
 -/
 import PS.Theorems.C03
+import PS.Proofs.Periodic
 namespace PS
 
 /-- time a busy interval `[s, e]` spends inside `[lo, hi]` -/
@@ -74,6 +75,28 @@ def InterruptedOK (ρ : Env) (s e : Int) (t : Task) (ivs : List (Int × Int)) : 
       (s ≤ e → ∀ m, maxD = some m → ρ.i (.tDur t.name) ≤ m + overlapSum s e ivs)
   | _ => ∀ iv ∈ ivs, iv.2 ≤ s ∨ e ≤ iv.1
 
+/-- the busy interval is exempt: the repetition is not active where it lies -/
+def PeriodicMasked (ρ : Env) (b : BusyRef) (start : Int) (end_ : Option Int) : Prop :=
+  (0 < start ∧ b.eV ρ ≤ start) ∨ (∃ en, end_ = some en ∧ en ≤ b.sV ρ)
+
+/-- time added by the repetitions of the listed windows that lie inside `[s, e]` -/
+def periodicOverlapSum (s e : Int) (ivs : List (Int × Int)) (off p : Int) : Int :=
+  (ivs.map (fun iv => (iv.2 - iv.1) * repsInside s e iv.1 iv.2 off p)).sum
+
+/-- ResourcePeriodicallyInterrupted, for one busy interval `[s, e]` of task `t` inside the activity window:
+    a fixed-duration task does not overlap the repetition of a window in the period it starts in (that it may
+    run into the next one is finding F39); a variable-duration task neither starts nor ends strictly inside
+    any repetition of any window — so every repetition is disjoint from, or wholly inside, `[s, e]` — and its
+    duration is at least its minimum (at most its maximum) plus the total length of the repetitions inside -/
+def PeriodicInterruptedOK (ρ : Env) (s e : Int) (t : Task) (ivs : List (Int × Int)) (p off : Int) : Prop :=
+  match t.kind with
+  | .var minD maxD _ =>
+      (∀ iv ∈ ivs, ∀ k : Int, (s ≤ iv.1 + off + p * k ∨ iv.2 + off + p * k ≤ s) ∧
+                              (e ≤ iv.1 + off + p * k ∨ iv.2 + off + p * k ≤ e)) ∧
+      (s ≤ e → minD + periodicOverlapSum s e ivs off p ≤ ρ.i (.tDur t.name) ∧
+               ∀ m, maxD = some m → ρ.i (.tDur t.name) ≤ m + periodicOverlapSum s e ivs off p)
+  | _ => ∀ iv ∈ ivs, iv.2 + off + p * ((s - off) / p) ≤ s ∨ e ≤ iv.1 + off + p * ((s - off) / p)
+
 /-- the documented meaning of each resource-constraint class -/
 def ResMeaning (ρ : Env) : CBody → Prop
   | .unavailable busy ivs => ∀ b ∈ busy, ∀ iv ∈ ivs, iv.2 ≤ b.sV ρ ∨ b.eV ρ ≤ iv.1
@@ -82,6 +105,10 @@ def ResMeaning (ρ : Env) : CBody → Prop
   | .distance busy d ivs mode => GapsOK ρ busy (fun e s => DistCond ivs e s → cmpHolds mode (s - e) d)
   | .interrupted ws ivs => (∀ iv ∈ ivs, iv.1 < iv.2) →
       ∀ w ∈ ws, ∀ bt ∈ w, InterruptedOK ρ (bt.1.sV ρ) (bt.1.eV ρ) bt.2 ivs
+  | .periodicallyInterrupted busy ivs period start offset end_ =>
+      0 < period → (∀ iv ∈ ivs, 0 ≤ iv.1 ∧ iv.1 < iv.2 ∧ iv.2 ≤ period) →
+      ∀ bt ∈ busy, ¬ PeriodicMasked ρ bt.1 start end_ →
+        PeriodicInterruptedOK ρ (bt.1.sV ρ) (bt.1.eV ρ) bt.2 ivs period offset
   | .sameWorkers s1 s2 => ∀ w ∈ s1.workers, w ∈ s2.workers → (ρ.b (.sel s1.id w) = ρ.b (.sel s2.id w))
   | .distinctWorkers s1 s2 => ∀ w ∈ s1.workers, w ∈ s2.workers → ¬ (ρ.b (.sel s1.id w) = true ∧ ρ.b (.sel s2.id w) = true)
   | _ => True
@@ -200,8 +227,8 @@ theorem interruptedOne_sound (b : BusyRef) (t : Task) (ivs : List (Int × Int)) 
           simp only [List.mem_flatMap]; exact ⟨iv, hiv, List.mem_cons_of_mem _ (List.mem_cons_self ..)⟩)
         simp only [Fml.eval, Term.eval, numT, hs, he] at h1 h2
         constructor
-        · by_contra hc; push_neg at hc; exact h1 ⟨fun a => absurd a (by omega), fun a => absurd a (by omega)⟩
-        · by_contra hc; push_neg at hc; exact h2 ⟨fun a => absurd a (by omega), fun a => absurd a (by omega)⟩
+        · by_contra hc; simp only [not_or, not_le] at hc; exact h1 ⟨fun a => absurd a (by omega), fun a => absurd a (by omega)⟩
+        · by_contra hc; simp only [not_or, not_le] at hc; exact h2 ⟨fun a => absurd a (by omega), fun a => absurd a (by omega)⟩
       have hsum := interrupted_sum ρ b ivs hwf hends
       simp only [numT] at hsum
       have hmin' := hmin _ (List.mem_cons_self ..)
@@ -227,6 +254,157 @@ theorem interruptedOne_sound (b : BusyRef) (t : Task) (ivs : List (Int × Int)) 
       simp only [Fml.eval, Term.eval, numT, hs, he] at h1
       by_contra hc; push_neg at hc
       exact h1 ⟨fun a => absurd a (by omega), fun a => absurd a (by omega)⟩
+
+/-- a disjunction with the `start` / `end` masks of a busy interval that is not masked reduces to its core -/
+theorem unmasked_core (ρ : Env) (b : BusyRef) (start : Int) (end_ : Option Int) (core : Fml)
+    (hmask : ¬ PeriodicMasked ρ b start end_)
+    (h : (if (periodicMasks b start end_).length > 0 then Fml.or (core :: periodicMasks b start end_) else core).eval ρ) :
+    core.eval ρ := by
+  by_cases hlen : (periodicMasks b start end_).length > 0
+  · rw [if_pos hlen] at h
+    simp only [Fml.eval, Fml.evalAny] at h
+    rcases h with h | h
+    · exact h
+    · exfalso
+      rw [evalAny_iff] at h
+      obtain ⟨a, ha, hae⟩ := h
+      simp only [periodicMasks, List.mem_append] at ha
+      rcases ha with ha | ha
+      · by_cases hs : start > 0
+        · simp only [hs, if_true, List.mem_singleton] at ha
+          subst ha
+          apply hmask
+          left
+          simp only [Fml.eval, Term.eval, numT] at hae
+          exact ⟨hs, hae⟩
+        · simp [hs] at ha
+      · cases hen : end_ with
+        | none => simp [hen] at ha
+        | some en =>
+            simp only [hen, List.mem_singleton] at ha
+            subst ha
+            apply hmask
+            right
+            simp only [Fml.eval, Term.eval, numT] at hae
+            exact ⟨en, hen, hae⟩
+  · rw [if_neg hlen] at h
+    exact h
+
+/-- the `crossing` test of ResourcePeriodicallyInterrupted for one window -/
+def pCrossing (b : BusyRef) (iv : Int × Int) (period offset : Int) : Fml :=
+  let fs := Term.mod (.sub b.s (numT offset)) (numT period)
+  let dur := Term.sub b.e b.s
+  .not (.xor (.and [.le fs (numT iv.1), .le (.add fs (.mod dur (numT period))) (numT iv.1)])
+             (.and [.ge fs (numT iv.2), .le (.add fs (.mod dur (numT period))) (numT (iv.1 + period))]))
+
+/-- the overlap term of ResourcePeriodicallyInterrupted for one window -/
+def pOverlapTerm (b : BusyRef) (iv : Int × Int) (period offset : Int) : Term :=
+  let dur := Term.sub b.e b.s
+  Term.ite (.or [pCrossing b iv period offset, .gt dur (numT (iv.1 + period - iv.2))])
+    (.mul (numT (iv.2 - iv.1))
+      (.ite (pCrossing b iv period offset) (.add (.div dur (numT period)) (numT 1)) (.div dur (numT period))))
+    (numT 0)
+
+open Classical in
+theorem pOverlapTerm_eval (ρ : Env) (b : BusyRef) (iv : Int × Int) (p off : Int) (hp : 0 < p)
+    (hwf : 0 ≤ iv.1 ∧ iv.1 < iv.2 ∧ iv.2 ≤ p) (hse : b.sV ρ ≤ b.eV ρ)
+    (hs : (b.sV ρ - off) % p ≤ iv.1 ∨ iv.2 ≤ (b.sV ρ - off) % p)
+    (he : (b.eV ρ - off) % p ≤ iv.1 ∨ iv.2 ≤ (b.eV ρ - off) % p) :
+    (pOverlapTerm b iv p off).eval ρ = (iv.2 - iv.1) * repsInside (b.sV ρ) (b.eV ρ) iv.1 iv.2 off p := by
+  have hsv : b.s.eval ρ = b.sV ρ := rfl
+  have hev : b.e.eval ρ = b.eV ρ := rfl
+  have := periodic_overlap_closed_form (b.sV ρ) (b.eV ρ) iv.1 iv.2 off p hp hwf.1 hwf.2.1 hwf.2.2 hse hs he
+    ((pCrossing b iv p off).eval ρ)
+    (by
+      simp only [pCrossing, Fml.eval, Fml.evalAll, Term.eval, numT, hsv, hev, and_true, not_not])
+  rw [← this]
+  simp only [pOverlapTerm, Term.eval, Fml.eval, Fml.evalAny, numT, hsv, hev, or_false]
+
+theorem pOverlap_sum (ρ : Env) (b : BusyRef) (p off : Int) (hp : 0 < p) (hse : b.sV ρ ≤ b.eV ρ) :
+    ∀ (ivs : List (Int × Int)), (∀ iv ∈ ivs, 0 ≤ iv.1 ∧ iv.1 < iv.2 ∧ iv.2 ≤ p) →
+      (∀ iv ∈ ivs, ((b.sV ρ - off) % p ≤ iv.1 ∨ iv.2 ≤ (b.sV ρ - off) % p) ∧
+                   ((b.eV ρ - off) % p ≤ iv.1 ∨ iv.2 ≤ (b.eV ρ - off) % p)) →
+      Term.evalSum ρ (ivs.map (fun iv => pOverlapTerm b iv p off)) = periodicOverlapSum (b.sV ρ) (b.eV ρ) ivs off p := by
+  intro ivs
+  induction ivs with
+  | nil => intro _ _; simp [periodicOverlapSum, Term.evalSum]
+  | cons iv rest ih =>
+      intro hwf hend
+      have hr := ih (fun x hx => hwf x (List.mem_cons_of_mem _ hx)) (fun x hx => hend x (List.mem_cons_of_mem _ hx))
+      have ht := pOverlapTerm_eval ρ b iv p off hp (hwf iv (List.mem_cons_self ..)) hse
+        (hend iv (List.mem_cons_self ..)).1 (hend iv (List.mem_cons_self ..)).2
+      simp only [List.map_cons, Term.evalSum, periodicOverlapSum, List.sum_cons]
+      simp only [periodicOverlapSum] at hr
+      rw [ht, hr]
+
+/-- **C04 (ResourcePeriodicallyInterrupted), one busy interval inside the activity window.** -/
+theorem periodicInterruptedOne_sound (b : BusyRef) (t : Task) (ivs : List (Int × Int)) (p off : Int) (ρ : Env)
+    (hp : 0 < p) (hwf : ∀ iv ∈ ivs, 0 ≤ iv.1 ∧ iv.1 < iv.2 ∧ iv.2 ≤ p)
+    (h : Sat ρ (periodicInterruptedOne b t ivs p off)) :
+    PeriodicInterruptedOK ρ (b.sV ρ) (b.eV ρ) t ivs p off := by
+  have hsv : b.s.eval ρ = b.sV ρ := rfl
+  have hev : b.e.eval ρ = b.eV ρ := rfl
+  unfold periodicInterruptedOne at h
+  unfold PeriodicInterruptedOK
+  have hfixed : Sat ρ (ivs.map (fun iv => Fml.xor (.ge (Term.mod (.sub b.s (numT off)) (numT p)) (numT iv.2))
+        (.le (.add (Term.mod (.sub b.s (numT off)) (numT p)) (Term.sub b.e b.s)) (numT iv.1)))) →
+      ∀ iv ∈ ivs, iv.2 + off + p * ((b.sV ρ - off) / p) ≤ b.sV ρ ∨ b.eV ρ ≤ iv.1 + off + p * ((b.sV ρ - off) / p) := by
+    intro hf iv hiv
+    have hx := hf _ (List.mem_map.2 ⟨iv, hiv, rfl⟩)
+    simp only [Fml.eval, Term.eval, numT, hsv, hev] at hx
+    have hdecomp := Int.emod_add_mul_ediv (b.sV ρ - off) p
+    generalize (b.sV ρ - off) % p = f at hx hdecomp
+    generalize (b.sV ρ - off) / p = k at hdecomp ⊢
+    by_cases h1 : iv.2 ≤ f
+    · left; omega
+    · right
+      have h2 : f + (b.eV ρ - b.sV ρ) ≤ iv.1 := by
+        by_contra h2
+        exact hx ⟨fun a => absurd a h1, fun a => absurd a h2⟩
+      omega
+  cases hk : t.kind with
+  | var minD maxD al =>
+      simp only [hk] at h ⊢
+      rw [Sat.append, Sat.append] at h
+      obtain ⟨⟨hend, hmin⟩, hmax⟩ := h
+      have hends : ∀ iv ∈ ivs, ((b.sV ρ - off) % p ≤ iv.1 ∨ iv.2 ≤ (b.sV ρ - off) % p) ∧
+                   ((b.eV ρ - off) % p ≤ iv.1 ∨ iv.2 ≤ (b.eV ρ - off) % p) := by
+        intro iv hiv
+        have hlt := (hwf iv hiv).2.1
+        have h1 := hend (Fml.xor (.le (Term.mod (.sub b.s (numT off)) (numT p)) (numT iv.1))
+            (.ge (Term.mod (.sub b.s (numT off)) (numT p)) (numT iv.2))) (by
+          simp only [List.mem_flatMap]; exact ⟨iv, hiv, List.mem_cons_self ..⟩)
+        have h2 := hend (Fml.xor (.le (Term.mod (.sub b.e (numT off)) (numT p)) (numT iv.1))
+            (.ge (Term.mod (.sub b.e (numT off)) (numT p)) (numT iv.2))) (by
+          simp only [List.mem_flatMap]; exact ⟨iv, hiv, List.mem_cons_of_mem _ (List.mem_cons_self ..)⟩)
+        simp only [Fml.eval, Term.eval, numT, hsv, hev] at h1 h2
+        constructor
+        · by_contra hc; simp only [not_or, not_le] at hc; exact h1 ⟨fun a => absurd a (by omega), fun a => absurd a (by omega)⟩
+        · by_contra hc; simp only [not_or, not_le] at hc; exact h2 ⟨fun a => absurd a (by omega), fun a => absurd a (by omega)⟩
+      refine ⟨?_, ?_⟩
+      · intro iv hiv k
+        have hw := hwf iv hiv
+        exact ⟨folded_not_inside _ off p iv.1 iv.2 hp hw.1 hw.2.2 (hends iv hiv).1 k,
+               folded_not_inside _ off p iv.1 iv.2 hp hw.1 hw.2.2 (hends iv hiv).2 k⟩
+      · intro hse
+        have hsum := pOverlap_sum ρ b p off hp hse ivs hwf hends
+        have hmin' := hmin _ (List.mem_cons_self ..)
+        simp only [Fml.eval, Term.eval, numT, Task.dVar] at hmin'
+        have hsum' : Term.evalSum ρ (ivs.map (fun iv => pOverlapTerm b iv p off)) =
+            periodicOverlapSum (b.sV ρ) (b.eV ρ) ivs off p := hsum
+        simp only [pOverlapTerm, pCrossing, numT] at hsum'
+        refine ⟨by rw [← hsum']; exact hmin', ?_⟩
+        intro m hm
+        subst hm
+        have hmax' := hmax _ (List.mem_cons_self ..)
+        simp only [Fml.eval, Term.eval, numT, Task.dVar] at hmax'
+        rw [← hsum']; exact hmax'
+  | fixed d =>
+      simp only [hk] at h ⊢
+      exact hfixed h
+  | zero =>
+      simp only [hk] at h ⊢
+      exact hfixed h
 
 /-- **C04 (per class).** The raw assertions of a resource constraint imply its documented meaning. -/
 theorem C04_raw_sound (c : Nat) (b : CBody) (ρ : Env) (h : Sat ρ (b.raw c)) : ResMeaning ρ b := by
@@ -276,6 +454,15 @@ theorem C04_raw_sound (c : Nat) (b : CBody) (ρ : Env) (h : Sat ρ (b.raw c)) : 
     apply interruptedOne_sound bt.1 bt.2 ivs ρ hwf
     intro a ha
     exact hall a (List.mem_flatMap.2 ⟨bt, hbt, ha⟩)
+  case periodicallyInterrupted busy ivs period start offset end_ =>
+    intro hp hwf bt hbt hmask
+    have hf := h (periodicInterruptedFml bt ivs period start offset end_) (by
+      simp only [CBody.raw, List.mem_map]; exact ⟨bt, hbt, rfl⟩)
+    unfold periodicInterruptedFml at hf
+    have hcore := unmasked_core ρ bt.1 start end_ _ hmask hf
+    simp only [Fml.eval] at hcore
+    rw [evalAll_eq_Sat] at hcore
+    exact periodicInterruptedOne_sound bt.1 bt.2 ivs period offset ρ hp hwf hcore
   case sameWorkers s1 s2 =>
     intro w hw1 hw2
     have := h (Fml.iff (.bvar (.sel s1.id w)) (.bvar (.sel s2.id w))) (by
@@ -305,10 +492,6 @@ namespace PS
 open List
 
 /-! ### ResourcePeriodicallyUnavailable: the window of the task's own period -/
-
-/-- the busy interval is exempt: the repetition is not active where it lies -/
-def PeriodicMasked (ρ : Env) (b : BusyRef) (start : Int) (end_ : Option Int) : Prop :=
-  (0 < start ∧ b.eV ρ ≤ start) ∨ (∃ en, end_ = some en ∧ en ≤ b.sV ρ)
 
 /-- **C04 (ResourcePeriodicallyUnavailable, own period).**  For every busy interval `[s, e]` of the
     resource and every listed window `(lo, hi)`, with `k = (s − offset) div period` the period the
